@@ -203,12 +203,25 @@ class Simplifier(pysmt.walkers.DagWalker):
         sl = args[0]
         sr = args[1]
 
-        if sl.is_constant() and sr.is_constant():
+        if sl == sr:
+            return self.manager.TRUE()
+        elif sl.is_array_value() or sr.is_array_value():
+            # Array values have no python value: two different array
+            # values (default + non-default assignments) over an
+            # infinite index type with scalar elements are different
+            # arrays; the other cases are left to the solver.
+            if sl.is_constant() and sr.is_constant():
+                ty = sl.get_type()
+                idx_ty = ty.index_type
+                if (idx_ty.is_int_type() or idx_ty.is_real_type() or \
+                    idx_ty.is_string_type()) and \
+                   not ty.elem_type.is_array_type():
+                    return self.manager.FALSE()
+            return self.manager.Equals(sl, sr)
+        elif sl.is_constant() and sr.is_constant():
             l = sl.constant_value()
             r = sr.constant_value()
             return self.manager.Bool(l == r)
-        elif sl == sr:
-            return self.manager.TRUE()
         else:
             return self.manager.Equals(sl, sr)
 
